@@ -136,6 +136,7 @@ func (p *parser) parseMessageText() (dataItem ast.ItemNode, ok bool) {
 		length += int(b << shift)
 	}
 	p.pos += lengthBytesCount
+	verifItem(p.pos, int(formatCode), lengthBytesCount, length)
 
 	switch formatCode {
 	case formatCodeList:
